@@ -1,30 +1,35 @@
-# C04, C17 (imagefam). C05 / C06(image) / C10(image) add their own entries to this file.
+# C04, C17 (imagefam). C05 / C06(image) / C10(image) live in their own families and reuse
+# harness/internal/tarimg and harness/internal/overlay.
 PROPS = {}
 PROPS["C04"] = {
     "level": "exploration",
     "exhaustive": {"quick": False, "thorough": False},
-    "rule": "rapid-generated layer sequences (1-5 tar layers over a 45-path universe of depth <= 4; entries dir/file/symlink/whiteout/opaque in a generated in-tar order; explicit, partial or implicit parents; plain, './' and absolute names; PAX/USTAR/GNU; history aligned / with empty layers / absent / mismatched; FileRequirerAll or a path-set requirer); every view i is compared with the reference overlay on every mentioned path (Stat, Open+ReadAll, ReadDir) and on a walk, then UnpackSquashed is compared; non-trivial = >= 2 tar layers and >= 1 entry (whiteout, opaque, replacement, type change) that affects a lower layer; distinct by hash of the case JSON",
+    "rule": "rapid-generated layer sequences (1-5 tar layers over a 45-path universe of depth <= 4; entries dir/file/symlink/whiteout/opaque in a generated in-tar order (as generated, reversed or shuffled); explicit, partial or implicit parents; plain, './' and absolute names; PAX/USTAR/GNU headers; history aligned / with interleaved empty layers / absent / not matching the layers; FileRequirerAll or a path-set requirer in both path spellings). Every view i is compared with the reference overlay on every mentioned path (Stat in two spellings, Open+Stat+ReadAll, ReadDir incl. per-entry kind/mode/size) and on a recursive walk (both directions), then UnpackSquashed of the same v1.Image is compared file by file. Non-trivial = >= 2 tar layers and >= 1 entry (whiteout, opaque marker, replacement, type change) that affects a lower layer; distinct by hash of the case JSON. The thorough tier adds the exhaustive sweep of all tree-consistent 2-layer images over the 6-path universe a, a/b, a/b/c, a/d, e, e/f (300 x 3423 images; coverage.sweep_* counts how many were checked and how many fall into known-finding classes).",
     "assumptions": ["go-containerregistry (empty, mutate.Append, mutate.ConfigFile) builds the v1.Image faithfully from the generated tar streams",
-                    "layers are tree-consistent (no name twice in one tar, no non-directory that is also a parent in the same tar): tar semantics of in-layer duplicates are not part of the property",
+                    "layers are tree-consistent (no name twice in one tar, no non-directory that is also a parent in the same tar, no marker inside a directory the same tar whites out): tar semantics of such layers are not part of the property",
+                    "whiteout markers are generated inside directories that exist below; opaque markers on directories that exist below or carry an entry in the same tar (what a marker in a non-existing directory implies is unspecified)",
                     "size limits (MaxFileBytes) are left to C10; hard links to C06",
-                    "with a requirer: intermediate views may keep non-required files, and a directory without retained descendants may be absent (documented pruning of the final view only; pathtree.Remove prunes emptied parents)"],
+                    "tolerated and counted (classes 'tolerated:*'): Open of an absent path returning a handle whose Stat/Read fail with not-exist (C17's c17.open_whiteout); ReadDir of an absent path or non-directory returning an empty list instead of an error",
+                    "with a requirer: an intermediate view may keep or drop non-required files (only the final view is documented as pruned, where targets of required symlinks are retained); a directory without retained descendants may be absent (pathtree.Remove prunes emptied parents and its unit test demands that); UnpackSquashed must write every directly required regular file and nothing outside the closure of required links"],
     "engine": "rapid",
     "technique": "model-based comparison of every image-up-to-layer view and of the squashed unpacking against an independent OCI overlay reference, both directions (listing vs direct lookup)",
-    "level_text": "Sampled exploration with an exact oracle: each generated image is decided completely (all views x all mentioned paths x listing/lookup/read), plus in the thorough tier an exhaustive sweep of all tree-consistent 2-layer images over a small path universe.",
-    "level_note": "Trusted: the 60-line overlay reference (internal/overlay), written from the OCI image-spec layer rules; known-finding classes are excluded by construction and counted in excluded_known.",
+    "level_text": "Sampled exploration with an exact oracle: each generated image is decided completely (all views x all mentioned paths x listing/lookup/read), plus in the thorough tier an exhaustive sweep of all tree-consistent 2-layer images over a 6-path universe.",
+    "level_note": "Trusted: the overlay reference (harness/internal/overlay, ~100 lines written from the OCI image-spec layer rules). Ten known-finding classes are excluded by construction and counted in excluded_known; each has a witness under replays/C04 that is replayed on every run. Sensitivity (quick tier, all caught): fillChainLayersWithFileNode ignoring inWhiteoutDir; ReadDir not filtering whiteouts; layer loop oldest-first; populateEmptyDirectoryNodes skipped; required-symlink targets not retained; fileNode.Stat not hiding whiteouts; unpack requirer path variant dropped.",
     "legs": [{"fam": "imagefam", "run": "^TestC04_"}],
-    "timeout": {"quick": 600, "thorough": 1500},
+    "timeout": {"quick": 600, "thorough": 2400},
 }
 PROPS["C17"] = {
     "level": "exploration",
     "exhaustive": {"quick": True, "thorough": True},
-    "rule": "exhaustive enumeration of symlink graphs on n named entries (each a file, a directory, missing, deleted by a later layer, or a relative/absolute symlink to any entry) x MaxSymlinkDepth 0..6, batched under /g<k>/ in 3-layer images; every entry is queried with Stat, Open(+Stat of the handle, ReadAll) and ReadDir in the intermediate and the final view; one evaluation per (graph, depth); non-trivial = the graph has a symlink entry; distinct by (n, graph code, depth)",
-    "assumptions": ["either ErrSymlinkCycle or ErrSymlinkDepthExceeded is accepted where the reference says the hop budget is exhausted",
-                    "the boundary class c17.missing_at_budget_plus_one (exactly maxDepth links then a missing target) is measured separately: the statement puts it on the depth-error side"],
+    "rule": "exhaustive enumeration of symlink graphs on n named entries (each a file, a directory, missing, deleted by a later layer, or a relative/absolute symlink to any entry incl. itself: (4+2n)^n graphs) x image.Config.MaxSymlinkDepth 0..6 (a load-time setting: every batch image is loaded once per depth), 250 graphs per 3-layer image (entries; whiteouts; an unrelated file). Every entry is queried with Stat, Open (+Stat of the handle, ReadAll) and ReadDir in the intermediate view (whiteout nodes present) and in the final view, and the listings of the two directories are compared. Quick: n = 1..4 complete plus 3000 seeded samples of n = 5; thorough: n = 1..5 complete (coverage.sizes_exhaustive says which sizes were complete). Plus 30 link/target shapes x 3 depths of symlinks whose target leaves the image root. One evaluation per (graph, depth); non-trivial = some queried entry is a symlink; distinct by (n, graph code, depth).",
+    "assumptions": ["either ErrSymlinkCycle or ErrSymlinkDepthExceeded is accepted where the reference says the hop budget is exhausted; not-exist must satisfy errors.Is(err, fs.ErrNotExist); a returned node is identified by name, kind, size and content",
+                    "only the final path component is resolved (the statement's scope); intermediate components are looked up literally by model and implementation alike",
+                    "known-finding classes (c17.open_whiteout, c17.missing_at_budget_plus_one, c17.escaping_symlink_exposes_replaced_entry) are tolerated query by query and counted in excluded_known; their witnesses are replayed strictly on every run",
+                    "ReadDir of a path that does not resolve may return an empty list instead of an error"],
     "engine": "enumeration",
     "technique": "exhaustive enumeration of small symlink graphs against a hop-by-hop reference resolver with an explicit hop budget",
-    "level_text": "Complete enumeration of the stated finite space (n <= 4 in the quick tier; the thorough tier states in coverage.sizes_exhaustive which sizes were enumerated completely) against an independent resolver.",
-    "level_note": "Trusted: the 25-line resolver of internal/overlay (Appendix A.2).",
+    "level_text": "Complete enumeration of the stated finite space (n <= 4 x depth 0..6 in the quick tier, n <= 5 x depth 0..6 in the thorough tier: 559 630 graphs, 3.9 million (graph, depth) pairs) against an independent resolver.",
+    "level_note": "Trusted: the 30-line resolver of harness/internal/overlay (Appendix A.2). Sensitivity (quick tier): caught 'depth < 0' -> 'depth <= 0', relative targets resolved from the root, Open returning the link node, depth never decremented; not caught because they do not change anything the property observes (cycle vs depth error are interchangeable, the depth bound alone guarantees termination): slow pointer advanced every step, cycle test by virtualPath, cycle test partly disabled.",
     "legs": [{"fam": "imagefam", "run": "^TestC17_"}],
-    "timeout": {"quick": 600, "thorough": 1500},
+    "timeout": {"quick": 600, "thorough": 2400},
 }
